@@ -3,7 +3,7 @@ VIEW GView
 CONSTANTS
   Names = {"a", "name"}
   IntVals <- IV_small
-  Specials = {"none", "ref", "zz", "mem"}
+  Specials = {"none", "ref", "floatint", "floatfrac", "bool", "list", "mem"}
   DispNames = {"x"}
   MaxPieces = 2
   MaxExt = 1
